@@ -344,6 +344,9 @@ func TestC18_Transform(t *testing.T) {
 		}
 		if o.keyCtx != nil {
 			opts = append(opts, didtransformer.WithKeyContext(o.keyCtx))
+		} else if k := rapid.IntRange(0, 5).Draw(t, "emptyKeyCtx"); k < 2 {
+			// a key context option without entries (an unset configuration value passed on) means the built-in contexts
+			opts = append(opts, didtransformer.WithKeyContext([]map[string]string{nil, {}}[k]))
 		}
 		tr := didtransformer.New(opts...)
 		rm := &protocol.ResolutionModel{Doc: libDoc(doc), RecoveryCommitment: s.recovery, UpdateCommitment: s.update, AnchorOrigin: s.origin,
@@ -396,6 +399,43 @@ func TestC18_Transform(t *testing.T) {
 		if w2 := refTransform(s, o2); refJCS(rt1c) != refJCS(w2) {
 			gm, _ := rt1c.(map[string]interface{})
 			t.Fatalf("C18 transforming the same resolved state with the other @base option gives a wrong result\n got  %s\n want %s", refJCS(gm["didDocument"]), refJCS(w2["didDocument"]))
+		}
+
+		// the same transformer instance, the same key ids, other key material (a key replaced under its id, or another DID
+		// using the same fragment): the result shows the material of the state that is transformed
+		if len(keys) > 0 {
+			edB := map[string][]byte{}
+			docB := deepCopyValue(doc).(map[string]interface{})
+			var keysB []interface{}
+			for _, k := range keys {
+				keysB = append(keysB, genTransformKey(t, k.(map[string]interface{})["id"].(string), edB))
+			}
+			docB["publicKey"] = keysB
+			sB := s
+			sB.doc, sB.edKeyOfEntry = docB, edB
+			rmB := *rm
+			rmB.Doc = libDoc(docB)
+			oB := o
+			infoB := protocol.TransformationInfo{"id": o.id, "published": o.published}
+			if rapid.Bool().Draw(t, "otherDID") {
+				oB.id = "did:sidetree:EiOtherDidSameFragments"
+				infoB["id"] = oB.id
+			}
+			if o.canonicalID != "" {
+				infoB["canonicalId"] = o.canonicalID
+			}
+			if o.equivalent != nil {
+				infoB["equivalentId"] = o.equivalent
+			}
+			gotB, err := tr.TransformDocument(&rmB, infoB)
+			if err != nil {
+				t.Fatalf("C18 TransformDocument (same key ids, other material) failed: %v", err)
+			}
+			rtB, _ := jsonRoundTrip(gotB)
+			if wB := refTransform(sB, oB); refJCS(rtB) != refJCS(wB) {
+				gm, _ := rtB.(map[string]interface{})
+				t.Fatalf("C18 the same transformer shows other key material under key ids it has seen before\n got  %s\n want %s", refJCS(gm["didDocument"]), refJCS(wB["didDocument"]))
+			}
 		}
 
 		// an earlier result stays what it was when the same transformer instance transforms another state
